@@ -76,18 +76,53 @@ Record GI (n : N) (gh : ghost) : Prop := mkGI {
   G_freed : forall b, is_freed b gh = true -> (b < gh_next gh)%N;
   G_faults : gh_faults gh = [];
   G_noleak : forall b, (b < gh_next gh)%N ->
-             is_freed b gh = true \/ exists t gt, g_find t (gh_tasks gh) = Some gt /\ In b (ids gt)
+             is_freed b gh = true \/ exists t gt, g_find t (gh_tasks gh) = Some gt /\ In b (ids gt);
+  G_keys : NoDup (map fst (gh_tasks gh))
 }.
 
 Lemma GI_init : GI 1 ghost_init.
 Proof.
   constructor; cbn; try discriminate; try reflexivity.
-  intros b Hb. lia.
+  - intros b Hb. lia.
+  - constructor.
+Qed.
+
+Lemma keys_g_set t x l : map fst (g_set t x l) = map fst l.
+Proof.
+  induction l as [|[k y] r IH]; cbn; [reflexivity|]. destruct (N.eqb k t); cbn; [reflexivity|now rewrite IH].
+Qed.
+
+Lemma in_keys_remove k t l : In k (map fst (g_remove t l)) -> In k (map fst l).
+Proof.
+  induction l as [|[k' y] r IH]; cbn; [tauto|]. destruct (N.eqb k' t); cbn; [auto|]. intros [?|?]; auto.
+Qed.
+
+Lemma nodup_keys_remove t l : NoDup (map fst l) -> NoDup (map fst (g_remove t l)).
+Proof.
+  induction l as [|[k y] r IH]; cbn; intros H; [constructor|].
+  inversion H as [|? ? Hk Hr]; subst. destruct (N.eqb k t); cbn; [auto|].
+  constructor; [|auto]. intros Hin. apply Hk. eapply in_keys_remove; eauto.
+Qed.
+
+Lemma in_find t gt l : NoDup (map fst l) -> In (t, gt) l -> g_find t l = Some gt.
+Proof.
+  induction l as [|[k y] r IH]; cbn; intros Hn Hin; [contradiction|].
+  inversion Hn as [|? ? Hk Hr]; subst. destruct Hin as [[= -> ->]|Hin].
+  - now rewrite N.eqb_refl.
+  - destruct (N.eqb k t) eqn:E; [|auto]. apply N.eqb_eq in E. subst k.
+    exfalso. apply Hk. apply in_map_iff. exists (t, gt). split; [reflexivity|assumption].
+Qed.
+
+Lemma g_find_in t gt l : g_find t l = Some gt -> In (t, gt) l.
+Proof.
+  induction l as [|[k y] r IH]; cbn; [discriminate|]. destruct (N.eqb k t) eqn:E.
+  - apply N.eqb_eq in E. intros [= ->]. left. now subst.
+  - intros H. right. auto.
 Qed.
 
 Lemma GI_mono n m gh : (n <= m)%N -> GI n gh -> GI m gh.
 Proof.
-  intros Hle [H1 H2 H3 H4 H5]. constructor; auto.
+  intros Hle [H1 H2 H3 H4 H5 H6]. constructor; auto.
   intros t gt Hf. destruct (H1 t gt Hf). split; [assumption|lia].
 Qed.
 
@@ -245,7 +280,7 @@ Section G.
   Lemma gstep_GI st c st' x gh :
     GI (next_id st) gh -> step st c = (Some st', x) -> GI (next_id st') (gstep st gh c).
   Proof.
-    intros HG H. pose proof HG as [Gt Gs Gf Gx Gl].
+    intros HG H. pose proof HG as [Gt Gs Gf Gx Gl Gk].
     destruct c; cbn [Model.step] in H; cbn [Ghost.gstep].
     - (* Initiate *)
       destruct (g_register 0 parse_o gh (next_id st) (mkGT [] []) f src) as [gh1 gt] eqn:Er.
@@ -272,6 +307,7 @@ Section G.
           -- left. apply orb_true_iff. right. now apply mem_n_in.
           -- destruct (Gl b ltac:(lia)) as [Hfr|Hex]; [left|right; exact Hex].
              unfold is_freed in *. cbn. now rewrite Hfr.
+        * rewrite D4. cbn [alloc snd gh_tasks]. exact Gk.
       + (* POk: the task enters the table under next_id *)
         cbn [next_id]. constructor; cbn [with_tasks gh_tasks gh_sizes gh_next gh_freed gh_faults alloc snd].
         * intros t gt0. rewrite g_find_app. destruct (g_find t (gh_tasks gh)) as [g0|] eqn:Ef.
@@ -289,6 +325,9 @@ Section G.
              ++ now rewrite N.eqb_refl.
           -- destruct (Gl b ltac:(lia)) as [Hfr|[t [g0 [Hf Hin]]]]; [now left|].
              right. exists t, g0. split; [|exact Hin]. rewrite g_find_app, Hf. reflexivity.
+        * rewrite map_app. cbn [map fst]. apply NoDup_app_snoc; [exact Gk|].
+          intros Hin. apply in_map_iff in Hin as [[k g0] [E Hin]]. cbn in E. subst k.
+          apply (in_find _ _ _ Gk) in Hin. destruct (Gt _ _ Hin) as [_ Hlt]. lia.
     - (* Required *)
       assert (Hn : next_id st' = next_id st) by
         (destruct (find_task t (tasks st)); inversion H; subst; reflexivity).
@@ -317,6 +356,7 @@ Section G.
           destruct (N.eq_dec t0 t) as [->|Hne0].
           -- exists t, gt'. split; [now rewrite g_find_set_same, Ef|]. apply Hsup. congruence.
           -- exists t0, g0. split; [|exact Hin]. now rewrite g_find_set_other.
+      + rewrite keys_g_set. exact Gk.
     - (* Emit *)
       assert (Hn : next_id st' = next_id st).
       { destruct (find_task t (tasks st)) as [y|]; [|inversion H; subst; reflexivity].
@@ -348,6 +388,7 @@ Section G.
         destruct (N.eq_dec t0 t) as [->|Hne].
         * left. assert (g0 = gt) by congruence. subst g0. apply orb_true_iff. right. now apply mem_n_in.
         * right. exists t0, g0. split; [|exact Hin]. now rewrite g_find_remove_other.
+      + now apply nodup_keys_remove.
     - (* ReadResult *)
       assert (Hn : next_id st' = next_id st) by
         (destruct (result st) as [[m|l]|]; inversion H; subst; reflexivity).
@@ -371,7 +412,45 @@ Section G.
     /\ forall b, (b < gh_next gh)%N ->
          is_freed b gh = true \/ exists t gt, g_find t (gh_tasks gh) = Some gt /\ In b (ids gt).
   Proof.
-    cbn. destruct (grun_GI h init_state ghost_init GI_init) as [n [_ _ _ Hx Hl]]. split; assumption.
+    cbn. destruct (grun_GI h init_state ghost_init GI_init) as [n [_ _ _ Hx Hl _]]. split; assumption.
+  Qed.
+
+  (** ** thread exit: TASKS is dropped, every remaining task with it *)
+  Lemma exit_list_ok : forall l gh,
+    NoDup (map fst l) -> (forall t gt, In (t, gt) l -> tok gh t gt) ->
+    let gh' := fold_left (fun g (kt : N * gtask) => g_drop g (snd kt)) l gh in
+    gh_faults gh' = gh_faults gh /\ gh_next gh' = gh_next gh
+    /\ forall b, is_freed b gh' = is_freed b gh || existsb (fun kt => mem_n b (ids (snd kt))) l.
+  Proof.
+    induction l as [|[t gt] r IH]; intros gh Hn Ht; cbn [fold_left snd existsb].
+    - repeat split. intros b. now rewrite orb_false_r.
+    - inversion Hn as [|? ? Hk Hr]; subst.
+      destruct (drop_ok _ _ _ (Ht t gt (or_introl eq_refl))) as [D1 [D2 [D3 [D4 D5]]]].
+      destruct (IH (g_drop gh gt) Hr) as [F1 [F2 F3]].
+      + intros t' gt' Hin. pose proof (Ht t' gt' (or_intror Hin)) as Ht'.
+        eapply tok_ext; [exact D2| |exact Ht'].
+        intros b Hb. rewrite D5. replace (mem_n b (ids gt)) with false; [now rewrite orb_false_r|].
+        symmetry. apply mem_n_false. intros Hin2.
+        apply in_ids in Hb as [l0 [c0 Hb]]. apply in_ids in Hin2 as [l1 [c1 Hin2]].
+        destruct Ht' as [K0 _ _]. destruct (Ht t gt (or_introl eq_refl)) as [K1 _ _].
+        destruct (K0 _ _ _ Hb) as [S0 _], (K1 _ _ _ Hin2) as [S1 _].
+        assert (t' = t) by congruence. subst t'. apply Hk. apply in_map_iff. exists (t, gt'). split; [reflexivity|assumption].
+      + repeat split; [congruence|congruence|]. intros b. rewrite F3, D5. now rewrite orb_assoc.
+  Qed.
+
+  (** if the process does not abort, thread exit frees every buffer ever allocated, exactly once *)
+  Lemma ghost_exit_safe h :
+    let gh := g_exit (grun init_state ghost_init h) in
+    gh_faults gh = [] /\ forall b, (b < gh_next gh)%N -> is_freed b gh = true.
+  Proof.
+    cbn. destruct (grun_GI h init_state ghost_init GI_init) as [n [Gt Gs Gf Gx Gl Gk]].
+    set (g := grun init_state ghost_init h) in *. unfold g_exit.
+    destruct (exit_list_ok (gh_tasks g) g Gk) as [F1 [F2 F3]].
+    - intros t gt Hin. apply (in_find _ _ _ Gk) in Hin. now destruct (Gt _ _ Hin).
+    - split; [congruence|]. intros b Hb. rewrite F2 in Hb. rewrite F3.
+      destruct (Gl b Hb) as [Hfr|[t [gt [Hf Hin]]]]; [now rewrite Hfr|].
+      apply orb_true_iff. right. apply existsb_exists. exists (t, gt). split; [now apply g_find_in|].
+      now apply mem_n_in.
   Qed.
 End G.
 
